@@ -48,7 +48,9 @@ RULE = ("databases of two kinds: (a) real scheduler runs of generated workflows 
         "hits on finished jobs, failing siblings, failing tasks whose ErrorValue exceeds the backend's max_value_size (leaf / nested, caught / "
         "uncaught), workflows aborted by a scheduler task while hits are in flight, jobs and whole "
         "executions whose end is never recorded), observed after EVERY writing commit of the real backend (kill points: the state a "
-        "killed process leaves; a copy is examined whenever a row shape not yet examined in the run appears) and "
+        "killed process leaves; a copy is examined whenever a row shape not yet examined in the run appears), then PARTIALLY TRANSFERRED "
+        "(only later executions, e.g. the cache hits, synced into a fresh repository through RedunClient._sync_records; every row of the "
+        "destination is judged) and "
         "(b) raw sqlite rows covering every combination of end_time NULL x cached x {no call_hash, dangling call_hash, call node with "
         "missing value, ErrorValue, other value} with executions on top; for every database all 15 non-empty status subsets (plus "
         "permuted/duplicated lists and the empty list) are filtered for jobs and executions through CallGraphQuery and compared with "
@@ -227,6 +229,27 @@ class KillPoints:
     def remove(self):
         self.tap.remove()
         self.con.close()
+
+
+def partial_transfer(src_path, dest_path, keep):
+    """`redun push/pull <execution ids>`: sync the executions selected by `keep` (indices in start order) from the
+    database at src_path into the fresh repository at dest_path through the real RedunClient._sync_records
+    (iter_record_ids -> get_records -> put_records). Returns the synced indices (None: nothing to sync)."""
+    from redun.cli import RedunClient
+    con = sqlite3.connect(src_path)
+    ids = [r[0] for r in con.execute("select e.id from execution e join job j on j.id = e.job_id order by j.start_time, e.id")]
+    con.close()
+    idx = [i for i in keep if i < len(ids)]
+    if not idx:
+        return None
+    src, dest = run_backend(src_path), run_backend(dest_path)
+    try:
+        RedunClient._sync_records(None, src, dest, [ids[i] for i in idx])
+    finally:
+        for b in (src, dest):
+            b.session.close()
+            b.engine.dispose()
+    return idx
 
 
 def real_run_db(rng, path, seen=None, keep_dir=None, fixed_runs=None):
@@ -457,7 +480,7 @@ def compare_and_judge(ctx, d, reply):
     if real["dups"]:
         ctx.mismatch("query returned duplicate records", case, "distinct", repr(real["dups"])[:300])
     # ---- property oracle on the implementation (recorder-producible rows only)
-    from_recorder = d["kind"] in ("real-run", "kill-point")
+    from_recorder = d["kind"] in ("real-run", "kill-point", "transfer")
     if from_recorder:
         bad = {j: s for j, s in shapes.items() if not rec_inv(s)}
         if bad:
@@ -544,6 +567,15 @@ def run(ctx, only=None):
             for k, sp in snaps:
                 kills.append(check_db(ctx, "kill-point", {"runs": desc, "killed_after_commit": k}, sp, None, full=False))
                 os.remove(sp)
+            # partial transfer: only later executions (typically the ones served from the cache) are pushed to a fresh repository
+            if len(desc) >= 2:
+                first = 1 if (fixed is not None or ctx.rng.random() < 0.7) else ctx.rng.randrange(1, len(desc))
+                keep = list(range(first, len(desc)))
+                dp = fresh()
+                idx = partial_transfer(p, dp, keep)
+                if idx is not None:
+                    todo.append(check_db(ctx, "transfer", {"runs": desc, "synced": idx}, dp, None, full=False))
+                os.remove(dp)
             os.remove(p)
 
         # corpus: cache hits that already know their CallNode (backend hit of a check_valid="shallow" task; CSE hit on a
@@ -552,6 +584,11 @@ def run(ctx, only=None):
                    (("shallow", 1, False), ("kill", 0, False)),
                    (("cse_done", 2, False), ("kill", 0, False)),
                    (("shallow", 1, True), ("cse_done", 2, True), ("boom", 1, False))])
+        # corpus: a workflow, its repetition (root job served from the cache) and a variant reusing cached children; only the
+        # later executions are synced to a fresh repository (partial transfer)
+        real_case([(("ok", 1, False), ("shallow", 2, False), ("twin_ok", 1, False)),
+                   (("ok", 1, False), ("shallow", 2, False), ("twin_ok", 1, False)),
+                   (("ok", 1, False), ("shallow", 2, False), ("boom", 1, True))])
         # corpus: failing tasks whose ErrorValue is larger than max_value_size, leaf / nested, caught / uncaught
         real_case([(("ok", 1, False), ("bigboom", 1, True)),
                    (("bignest", 2, True), ("ok", 1, False)),
@@ -654,6 +691,15 @@ def replay_runs(ctx, c):
         d2, snaps, nc = real_run_db(ctx.rng, path, set(), tmp, runs)
         todo = [check_db(ctx, "real-run", d2, path, None)]
         todo += [check_db(ctx, "kill-point", {"runs": d2, "killed_after_commit": k}, sp, None, full=False) for k, sp in snaps]
+        if isinstance(c["desc"], dict) and c["desc"].get("synced"):
+            dp = os.path.join(tmp, "dest.db")
+            b = RedunBackendDb(db_uri="sqlite:///" + dp)
+            b.load()
+            b.session.close()
+            b.engine.dispose()
+            idx = partial_transfer(path, dp, c["desc"]["synced"])
+            print("  synced executions %s into a fresh repository; judging the destination" % idx)
+            todo.append(check_db(ctx, "transfer", {"runs": d2, "synced": idx}, dp, None, full=False))
         for d, reply in zip(todo, ctx.model("C33", [d["line"] for d in todo])):
             compare_and_judge(ctx, d, reply)
             ctx.case(key=("replay", d["kind"], tuple(sorted(d["shapes"].values()))), sample={"replayed": True, "kind": d["kind"]})
@@ -664,7 +710,7 @@ def replay_runs(ctx, c):
 
 def replay(ctx, case):
     c = case.get("case") or {}
-    if isinstance(c, dict) and c.get("kind") in ("real-run", "kill-point") and c.get("desc"):
+    if isinstance(c, dict) and c.get("kind") in ("real-run", "kill-point", "transfer") and c.get("desc"):
         return replay_runs(ctx, c)
     if not isinstance(c, dict) or "jobs" not in c:
         print("replay file has no database rows; running the normal check")
